@@ -160,16 +160,16 @@ def specTagName (tag : String) : String := trimSpace ((tag.splitOn ",").headD ""
 def specTagOpts (tag : String) : List String := ((tag.splitOn ",").drop 1).map trimSpace
 
 /-- member name ↦ (field index path, type) -/
-def specFields : Nat → List (String × String × GoType) → Nat → List (Bytes × List Nat × GoType)
+def specFields (tbl : TypeTable) : Nat → List (String × String × GoType) → Nat → List (Bytes × List Nat × GoType)
   | 0, _, _ => []
   | _ + 1, [], _ => []
   | fuel + 1, (name, tag, t) :: rest, i =>
-    let more := specFields fuel rest (i + 1)
+    let more := specFields tbl fuel rest (i + 1)
     let opts := specTagOpts tag
     if !startsUpper name || specTagName tag == "-" || opts.contains "omit" then more
     else if opts.contains "inline" || opts.contains "squash" then
-      match t with
-      | .struct _ sfs => (specFields fuel sfs 0).map (fun (n, p, ft) => (n, i :: p, ft)) ++ more
+      match t.un tbl with
+      | .struct _ sfs => (specFields tbl fuel sfs 0).map (fun (n, p, ft) => (n, i :: p, ft)) ++ more
       | _ => more
     else
       let n := if specTagName tag != "" then specTagName tag else toLowerAscii name
@@ -181,10 +181,10 @@ mutual
 /-- `assign inPlace t old s`: the value a variable of type `t` holding `old` must hold after
 the document `s` was unfolded into it; `inPlace` selects the reading for existing elements /
 pointees / entries. -/
-def assign (inPlace : Bool) : Nat → GoType → GoVal → STree → Option GoVal
+def assign (tbl : TypeTable) (inPlace : Bool) : Nat → GoType → GoVal → STree → Option GoVal
   | 0, _, _, _ => none
   | fuel + 1, t, old, s =>
-    match t, s with
+    match t.un tbl, s with
     | .ifc, s => some (generic s)
     | .bool, .sc (.bool b) => some (.bool b)
     | .string, .sc (.str x) => some (.str x)
@@ -200,66 +200,66 @@ def assign (inPlace : Bool) : Nat → GoType → GoVal → STree → Option GoVa
     | .ptr e, .sc .nil => some (.ptrNil e)
     | .ptr e, s =>
       let base := match old with
-        | .ptr _ v => if inPlace then v else zero e
-        | _ => zero e
-      (assign inPlace fuel e base s).map (.ptr e)
+        | .ptr _ v => if inPlace then v else zero tbl e
+        | _ => zero tbl e
+      (assign tbl inPlace fuel e base s).map (.ptr e)
     | .slice e, .arr _ xs =>
       let olds := match old with
         | .slice _ es _ => if inPlace then es else []
         | _ => []
-      (assignElems inPlace fuel e olds xs).map fun es => .slice e es []
+      (assignElems tbl inPlace fuel e olds xs).map fun es => .slice e es []
     | .map e, .obj _ ms =>
       let olds := match old with
         | .map _ oms => oms
         | _ => []
-      (assignEntries inPlace fuel e olds ms).map (.map e)
+      (assignEntries tbl inPlace fuel e olds ms).map (.map e)
     | .struct _ fs, .obj _ ms =>
       match old with
-      | .struct ofs => (assignMembers inPlace fuel (specFields (fs.length + 64) fs 0) (.struct ofs) ms)
+      | .struct ofs => (assignMembers tbl inPlace fuel (specFields tbl (fs.length + 64) fs 0) (.struct ofs) ms)
       | _ => none
     | _, _ => none
-def assignElems (inPlace : Bool) : Nat → GoType → List GoVal → List STree → Option (List GoVal)
+def assignElems (tbl : TypeTable) (inPlace : Bool) : Nat → GoType → List GoVal → List STree → Option (List GoVal)
   | 0, _, _, _ => none
   | _ + 1, _, _, [] => some []
   | fuel + 1, e, olds, x :: r =>
-    let base := olds.headD (zero e)
-    match assign inPlace fuel e base x, assignElems inPlace fuel e (olds.drop 1) r with
+    let base := olds.headD (zero tbl e)
+    match assign tbl inPlace fuel e base x, assignElems tbl inPlace fuel e (olds.drop 1) r with
     | some v, some vs => some (v :: vs)
     | _, _ => none
-def assignEntries (inPlace : Bool) : Nat → GoType → List (Bytes × GoVal) → List (Bytes × STree) → Option (List (Bytes × GoVal))
+def assignEntries (tbl : TypeTable) (inPlace : Bool) : Nat → GoType → List (Bytes × GoVal) → List (Bytes × STree) → Option (List (Bytes × GoVal))
   | 0, _, _, _ => none
   | _ + 1, _, acc, [] => some acc
   | fuel + 1, e, acc, (k, x) :: r =>
     let base := match acc.find? (·.1 == k) with
-      | some (_, v) => if inPlace then v else zero e
-      | none => zero e
-    match assign inPlace fuel e base x with
-    | some v => assignEntries inPlace fuel e (putMember acc k v) r
+      | some (_, v) => if inPlace then v else zero tbl e
+      | none => zero tbl e
+    match assign tbl inPlace fuel e base x with
+    | some v => assignEntries tbl inPlace fuel e (putMember acc k v) r
     | none => none
 /-- members of an object into a struct value, in stream order; unknown members are skipped -/
-def assignMembers (inPlace : Bool) : Nat → List (Bytes × List Nat × GoType) → GoVal → List (Bytes × STree) → Option GoVal
+def assignMembers (tbl : TypeTable) (inPlace : Bool) : Nat → List (Bytes × List Nat × GoType) → GoVal → List (Bytes × STree) → Option GoVal
   | 0, _, _, _ => none
   | _ + 1, _, cur, [] => some cur
   | fuel + 1, fields, cur, (k, x) :: r =>
     match fields.find? (·.1 == k) with
-    | none => assignMembers inPlace fuel fields cur r
+    | none => assignMembers tbl inPlace fuel fields cur r
     | some (_, path, ft) =>
       let steps := path.map Step.field
       match cur.get steps with
       | none => none
       | some oldF =>
-        match assign inPlace fuel ft oldF x with
+        match assign tbl inPlace fuel ft oldF x with
         | none => none
         | some nv =>
           match cur.set steps nv with
           | none => none
-          | some cur' => assignMembers inPlace fuel fields cur' r
+          | some cur' => assignMembers tbl inPlace fuel fields cur' r
 end
 
 /-- the claim of C13 for a target of type `t` holding `old`: defined only where both readings
 agree -/
-def expected (t : GoType) (old : GoVal) (s : STree) : Option GoVal :=
-  match assign true 100000 t old s, assign false 100000 t old s with
+def expected (tbl : TypeTable) (t : GoType) (old : GoVal) (s : STree) : Option GoVal :=
+  match assign tbl true 100000 t old s, assign tbl false 100000 t old s with
   | some a, some b => if sameVal a b then some a else none
   | _, _ => none
 
